@@ -16,7 +16,7 @@ from ..seams import make_set as SimSet
 from ..util import cjson, h64, exc_class
 from .. import pools
 from .. import ini as inimod
-from .base import FormatMachine, Slot, VALID, INVALID, UNSPEC, first_diff, diff_key, _text_diff
+from .base import FormatMachine, Slot, VALID, INVALID, UNSPEC, first_diff, diff_key, _text_diff, dec
 
 REL_FIELDS = ["name", "short", "version", "is_layered"]
 BP_FIELDS = ["name", "short", "version"]
@@ -305,6 +305,7 @@ class TIMachine(FormatMachine):
         return "ok"
 
     def _set(self, s, sec, f, v):
+        v = dec(v)
         target = getattr(s.obj, sec)
         if sec == "tree" and f == "platforms":
             target.platforms = SimSet(v) if isinstance(v, list) else v
@@ -350,8 +351,8 @@ class TIMachine(FormatMachine):
         vid = str(op.get("var"))
         if s is None or vid not in s.pool:
             return "noop"
-        setattr(s.pool[vid], op["field"], op["value"])
-        s.model["vars"][vid][op["field"]] = op["value"]
+        setattr(s.pool[vid], op["field"], dec(op["value"]))
+        s.model["vars"][vid][op["field"]] = dec(op["value"])
         return "ok"
 
     def op_ti_var_path(self, op):
@@ -422,8 +423,8 @@ class TIMachine(FormatMachine):
         s = self.slot(op)
         if s is None:
             return "noop"
-        setattr(s.obj.stage2, op["field"], op["value"])
-        s.model["stage2"][op["field"]] = op["value"]
+        setattr(s.obj.stage2, op["field"], dec(op["value"]))
+        s.model["stage2"][op["field"]] = dec(op["value"])
         return "ok"
 
     def op_ti_media(self, op):
@@ -432,8 +433,8 @@ class TIMachine(FormatMachine):
             return "noop"
         for f in ("discnum", "totaldiscs"):
             if f in op:
-                setattr(s.obj.media, f, op[f])
-                s.model["media"][f] = op[f]
+                setattr(s.obj.media, f, dec(op[f]))
+                s.model["media"][f] = dec(op[f])
         return "ok"
 
     def op_ti_checksum_raw(self, op):
@@ -1035,8 +1036,8 @@ class DIMachine(FormatMachine):
         s = self.slot(op)
         if s is None:
             return "noop"
-        setattr(s.obj, op["field"], copy.deepcopy(op["value"]))
-        s.model[op["field"]] = copy.deepcopy(op["value"])
+        setattr(s.obj, op["field"], copy.deepcopy(dec(op["value"])))
+        s.model[op["field"]] = copy.deepcopy(dec(op["value"]))
         return "ok"
 
     def file_invariants(self, s, text, op):
